@@ -223,7 +223,11 @@ Section C16.
                        match assocz a corr, assocz b corr with
                        | Some ca, Some cb =>
                            (ca =? cb) || match edge_between g ca cb with
-                                         | Some at' => opt_pyval_eqb (aget (S "order") at_) (aget (S "order") at')
+                                         | Some at' =>
+                                             (* an aromatic (1.5) template bond may be re-kekulised by pysmiles'
+                                                correct_aromatic_rings once the ring is substituted: not judged *)
+                                             opt_pyval_eqb (aget (S "order") at_) (Some (VFlt (S "1.5")))
+                                             || opt_pyval_eqb (aget (S "order") at_) (aget (S "order") at')
                                          | None => false end
                        | _, _ => false
                        end) (f_edges t) &&
